@@ -21,6 +21,7 @@ func checkC20(c *Check, a *Anchors) {
 	c20FetchHonoursContext(c, a)
 	nodeIdentityImmutable(c, a)
 	fieldNotClobberedOnError(c, a, "field-not-clobbered-on-error") // the cache fallback re-uses the node whose fetch just failed
+	c20TrustErrorPropagates(c, a)
 }
 
 func c20DecisionTable(c *Check, a *Anchors) {
@@ -378,4 +379,66 @@ func c20FetchHonoursContext(c *Check, a *Anchors) {
 		}
 	}
 	c.Floor("fetch-honours-context", n, 2)
+}
+
+// c20TrustErrorPropagates: a declined (or impossible) approval ends the invocation: nothing between the trust gate and
+// Reader.Read may turn its error into success.
+func c20TrustErrorPropagates(c *Check, a *Anchors) {
+	c.Rule("trust-error-propagates", "in package taskfile every caller of a function from which the trust gate is reachable (the functions between Reader.Read and the remote read) returns that call's error on its non-nil edge — never nil (an `optional` include, a fallback, a log-and-continue): a swallowed *TaskfileNotTrustedError lets the run go on without the unapproved file and exit 0 instead of 104")
+	// the gate: functions of the package that construct TaskfileNotTrustedError
+	var gates []*FuncBody
+	for _, fb := range c.P.BodiesIn(PkgTaskfile) {
+		if fb.Decl == nil {
+			continue
+		}
+		inspectDeep(fb.Body, func(nd ast.Node) bool {
+			if cl, ok := nd.(*ast.CompositeLit); ok {
+				if tv, ok := fb.Info().Types[cl]; ok && isNamed(tv.Type, PkgErrors, "TaskfileNotTrustedError") {
+					gates = append(gates, fb)
+				}
+			}
+			return true
+		})
+	}
+	if len(gates) == 0 {
+		c.Errorf("trust-error-propagates: no function of package taskfile constructs TaskfileNotTrustedError")
+		return
+	}
+	carrying := map[*FuncBody]bool{}
+	for _, fb := range c.P.BodiesIn(PkgTaskfile) {
+		if fb.Decl == nil {
+			continue
+		}
+		reach := c.P.ReachableFrom([]*FuncBody{fb}, nil)
+		for _, g := range gates {
+			if reach[g] {
+				carrying[fb] = true
+			}
+		}
+	}
+	n := 0
+	for _, fb := range c.P.BodiesIn(PkgTaskfile) {
+		info := fb.Info()
+		has := false
+		for _, call := range callsIn(fb, false) {
+			if fn, ok := callee(info, call).(*types.Func); ok {
+				if d := c.P.DeclOf(fn); d != nil && carrying[d] {
+					has = true
+				}
+			}
+		}
+		if !has || fb.Type.Results == nil || fb.Type.Results.NumFields() == 0 {
+			continue
+		}
+		c.Fn(fb.Root())
+		n += resultFollows(c, a, fb, "trust-carrying", "trust-error-propagates", func(call *ast.CallExpr, obj types.Object) string {
+			if fn, ok := obj.(*types.Func); ok {
+				if d := c.P.DeclOf(fn); d != nil && carrying[d] {
+					return "trust-carrying"
+				}
+			}
+			return ""
+		})
+	}
+	c.Floor("trust-error-propagates", n, 3)
 }
